@@ -26,6 +26,8 @@ structure ScJ where
   prep : String                 -- VALS (boxed results)
   items : List ItemJ
   decisions : List String       -- "r<i>" | "c"
+  pre : Option Nat := none      -- the same node was run before with this concurrency (the model has no state across runs)
+  procs : Option Nat := none    -- GOMAXPROCS of the run (the model does not depend on it)
   deriving FromJson, ToJson
 
 structure ObsJ where
@@ -90,8 +92,8 @@ def process (sc : ScJ) (obs : ObsJ) : Except String Json := do
   -- the harness could not carry out its schedule on the implementation (no quiescence within the watchdog, or
   -- a task it had to release was not parked): a liveness / protocol failure of the implementation
   if sc.decisions.any (·.startsWith "bad:") then
-    return Json.mkObj [("agree", Json.bool false), ("spec", Json.mkObj [("C06", Json.bool false), ("C07", Json.bool false), ("C08", Json.bool false), ("C09", Json.bool false), ("C11", Json.bool false), ("C02", Json.bool false), ("C17", Json.bool false)]),
-      ("specModel", Json.mkObj [("C06", Json.bool true), ("C07", Json.bool true), ("C08", Json.bool true), ("C09", Json.bool true), ("C11", Json.bool true), ("C02", Json.bool true), ("C17", Json.bool true)]), ("nontrivial", Json.mkObj []),
+    return Json.mkObj [("agree", Json.bool false), ("spec", Json.mkObj [("C06", Json.bool false), ("C07", Json.bool false), ("C08", Json.bool false), ("C09", Json.bool false), ("C11", Json.bool false), ("C02", Json.bool false), ("C17", Json.bool false), ("C19", Json.bool false)]),
+      ("specModel", Json.mkObj [("C06", Json.bool true), ("C07", Json.bool true), ("C08", Json.bool true), ("C09", Json.bool true), ("C11", Json.bool true), ("C02", Json.bool true), ("C17", Json.bool true), ("C19", Json.bool true)]), ("nontrivial", Json.mkObj []),
       ("model", Json.str "the implementation hung or left the gating protocol; the model does neither")]
   let c ← match cfgOf sc with | some c => pure c | none => throw "bad scenario"
   let ds ← match sc.decisions.mapM parseDecision with | some d => pure d | none => throw "bad decision"
@@ -127,12 +129,14 @@ def process (sc : ScJ) (obs : ObsJ) : Except String Json := do
     [("C06", c06 c mItems v), ("C07", c07g c v), ("C08", c08 c false v), ("C09", c09 c v), ("C11", c11 c v),
      ("C02", c02g c v),
      -- C17 inside batches: slot i is exactly what item i's exec (or fallback) returned
-     ("C17", (List.range c.n).all fun i => slotMatches c v.events i (v.slots.getD i default))]
+     ("C17", (List.range c.n).all fun i => slotMatches c v.events i (v.slots.getD i default)),
+     -- C19: the LAST concurrency setting decides the width, whatever was configured / run before
+     ("C19", c08 c false v)]
   let anyFail := (List.range c.n).any fun i => (okOf (c.exec i 0)).isNone
   let nontrivial : List (String × Bool) :=
     [("C06", sc.n ≥ 2 && sc.conc ≥ 2), ("C07", !sc.stop && anyFail), ("C08", sc.n > sc.conc),
      ("C09", sc.stop && (mSlots.any (·.isError))), ("C11", ds.contains .cancel), ("C02", anyFail),
-     ("C17", sc.n ≥ 2)]
+     ("C17", sc.n ≥ 2), ("C19", sc.pre.isSome && sc.n > sc.conc)]
   let kv (l : List (String × Bool)) : Json := Json.mkObj (l.map fun (k, b) => (k, Json.bool b))
   let mObs : ObsJ := { phases := mPhases.map (·.map fun (i, k) => [i, k]), items := valsStr mItems,
                        slots := valsStr (mSlots.map Result.box), posts := mPosts, out := "Adefault" }
